@@ -538,6 +538,90 @@ def schema_sweep(name, data):
     return out
 
 
+def raw_varint(n):
+    """LEB128 of n taken modulo 2^64 (up to 10 bytes), no zig-zag: the wire form of binary lengths and list / map sizes."""
+    n &= (1 << 64) - 1
+    out = bytearray()
+    while True:
+        b = n & 0x7F
+        n >>= 7
+        if n:
+            out.append(b | 0x80)
+        else:
+            out.append(b)
+            return bytes(out)
+
+
+def wrap_lengths(dense):
+    """Lengths / sizes whose 32- or 64-bit arithmetic can wrap: around 2^31, 2^32, 2^63 and 2^64 - k (so that
+    `pos + n` lands on every position in front of and at the current one)."""
+    vals = []
+    for base in (2 ** 31, 2 ** 32, 2 ** 63):
+        vals += [base + d for d in (-2, -1, 0, 1, 2)]
+    vals += [2 ** 64 - k for k in (range(1, 65) if dense else (1, 2, 3, 4, 8, 12, 13, 16, 32, 64))]
+    vals += [2 ** 35, 2 ** 56 + 5, (1 << 64) - (1 << 31)]
+    return vals
+
+
+def varint_length_sweep(name, data):
+    """Binary / string lengths and list / map sizes as 5..10-byte varints, as known string fields and as unknown
+    fields, in the footer and in a page header."""
+    import copy
+    L = pq.layout(data)
+    out = []
+
+    def footer_case(mut, label):
+        tree = copy.deepcopy(L.footer)
+        mut(tree)
+        out.append((reassemble(data, L, tree), label))
+
+    for n in wrap_lengths(True):
+        footer_case(lambda t: t.append(Raw(bytes([T_BINARY]) + pq.varint(pq.zz(99)) + raw_varint(n) + b"xyz")),
+                    f"varint-length:FileMetaData.unknown-binary={n}")
+    for n in wrap_lengths(False):
+        def known(t, n=n):
+            for f in t:
+                if f[0] == 6:
+                    f[2] = Raw(raw_varint(n) + b"robust")
+            if pq.get(t, 6) is None:
+                t.append([6, T_BINARY, Raw(raw_varint(n) + b"robust")])
+        footer_case(known, f"varint-length:FileMetaData.created_by={n}")
+
+        def name_len(t, n=n):
+            e = pq.items(pq.get(t, 2))[1]
+            for f in e:
+                if f[0] == 4:
+                    f[2] = Raw(raw_varint(n) + b"nm")
+        footer_case(name_len, f"varint-length:SchemaElement.name={n}")
+        footer_case(lambda t, n=n: t.append(Raw(bytes([T_LIST]) + pq.varint(pq.zz(98)) + bytes([0xF0 | T_BINARY]) + raw_varint(n) + b"\x01a")),
+                    f"varint-length:FileMetaData.unknown-list-size={n}")
+        footer_case(lambda t, n=n: t.append(Raw(bytes([T_MAP]) + pq.varint(pq.zz(97)) + raw_varint(n) + bytes([(T_BINARY << 4) | T_BINARY]) + b"\x01a\x01b")),
+                    f"varint-length:FileMetaData.unknown-map-size={n}")
+
+        def rg_list(t, n=n):
+            for f in t:
+                if f[0] == 4:
+                    tag, et, its, _ = f[2]
+                    f[2] = Raw(bytes([0xF0 | T_STRUCT]) + raw_varint(n) + b"".join(pq.enc_struct(x) for x in its))
+        footer_case(rg_list, f"varint-length:FileMetaData.row_groups-size={n}")
+    pages = all_pages(data, L)
+    if pages:
+        gi, ci, md, off, hdr, hsize, csize = pages[0]
+        for n in wrap_lengths(True):
+            for where in ("PageHeader", "DataPageHeader"):
+                h2 = copy.deepcopy(hdr)
+                tgt = h2 if where == "PageHeader" else pq.get(h2, 5)
+                if tgt is None:
+                    continue
+                tgt.append(Raw(bytes([T_BINARY]) + pq.varint(pq.zz(99)) + raw_varint(n) + b"xyz"))
+                hb = pq.enc_struct(h2)
+                body = data[:off] + hb + data[off + hsize:L.footer_off]
+                tree = copy.deepcopy(L.footer)
+                shift_offsets(tree, off, len(hb) - hsize)
+                out.append((reassemble(data, L, tree, body=body), f"varint-length:{where}.unknown-binary={n}"))
+    return out
+
+
 def footer_prefix_sweep(name, data):
     """The footer cut at every byte (the framing - length word and magics - stays consistent): every way the
     Thrift parser can run out of input inside the metadata."""
@@ -1053,6 +1137,10 @@ def run(tier):
                 sweep += [(nm,) + x for x in every_int_field_sweep(nm, byname[nm])]
             except Exception as e:
                 rep.tie_broken(f"int sweep failed on seed {nm}: {e!r}", nm)
+        try:
+            sweep += [("py-plain",) + x for x in varint_length_sweep("py-plain", byname["py-plain"])]
+        except Exception as e:
+            rep.tie_broken(f"varint-length generator failed: {e!r}", "varint-length")
         try:
             sweep += [("py-dict-f",) + x for x in footer_prefix_sweep("py-dict-f", byname["py-dict-f"])]
             for nm in ("py-repeated", "py-dict-crc", "py-plain", "py-nested"):
